@@ -24,6 +24,7 @@ import DriverLib.C12
 import DriverLib.C07
 import DriverLib.C11
 import DriverLib.C20
+import DriverLib.C14
 open Lean Drv
 
 def handlers : List (String → Json → Option (R Json)) := [
@@ -46,6 +47,7 @@ def handlers : List (String → Json → Option (R Json)) := [
   Drv.C07.handle,
   Drv.C11.handle,
   Drv.C20.handle,
+  Drv.C14.handle,
   fun _ _ => none]
 
 def dispatch (line : String) : Json :=
